@@ -8,3 +8,9 @@ package handshake
 func VerifHashToChallenge(nonce1 uint64, nonce2 uint64) [32]byte {
 	return hashToChallenge(nonce1, nonce2)
 }
+
+// Field lengths enforced by the Unmarshal methods (marshaling.go).
+const (
+	VerifNonceByteLength     = nonceByteLength
+	VerifChallengeByteLength = challengeByteLength
+)
